@@ -76,6 +76,8 @@ type GenOpts struct {
 	BlockTimes bool
 	// ParamSalt: all remaining parameters get non-default values
 	ParamSalt bool
+	// ByzHeights: most Byzantine claims lie about the external height
+	ByzHeights bool
 }
 
 var ethIds = []string{
@@ -344,6 +346,9 @@ func GenOps(t *rapid.T, cfg sim.Config, o GenOpts) []Op {
 			// the weakest validator (if it holds < 1/3) claims a mutated copy of the next external event first
 			op.C = chainGen.Draw(t, "c")
 			op.N = rapid.IntRange(0, 6).Draw(t, "mutation")
+			if o.ByzHeights && rapid.IntRange(0, 2).Draw(t, "byzheight") > 0 {
+				op.N = 6 // the claim differs in the external height only (far in the future)
+			}
 		case "oprice", "oholders":
 			// every validator reports prices / a holders list for the current oracle epoch
 			op.R = rapid.IntRange(0, 9).Draw(t, "spread")
